@@ -569,3 +569,315 @@ Section Tree.
       eapply (go_ch_balance (S a mod D) W0 (sumN cparts) d' Hparts children cparts subs lvs (IH children eq_refl) HF Hslabs H).
   Qed.
 End Tree.
+
+(* ================================================= from leaves to part loads (Z) *)
+
+Open Scope Z_scope.
+
+Lemma sumZ_map_perm {X} (g : X -> Z) a b : Permutation a b -> sumZ (map g a) = sumZ (map g b).
+Proof.
+  unfold sumZ. induction 1 as [|x a b Hp IH|x y a|a b c H1 IH1 H2 IH2]; cbn [map fold_right]; lia.
+Qed.
+
+Lemma sumZ_map_zero {X} (g : X -> Z) l : (forall x, In x l -> g x = 0) -> sumZ (map g l) = 0.
+Proof.
+  unfold sumZ. induction l as [|x t IH]; intros H; cbn [map fold_right]; [reflexivity|].
+  rewrite (H x (or_introl eq_refl)), IH; [reflexivity|]. intros y Hy. apply H. right; exact Hy.
+Qed.
+
+Lemma sumZ_map_ext {X} (g h : X -> Z) l : (forall x, In x l -> g x = h x) -> sumZ (map g l) = sumZ (map h l).
+Proof.
+  unfold sumZ. induction l as [|x t IH]; intros H; cbn [map fold_right]; [reflexivity|].
+  rewrite (H x (or_introl eq_refl)), IH; [reflexivity|]. intros y Hy. apply H. right; exact Hy.
+Qed.
+
+Lemma loadZ_seq : forall ws p b, length p = length ws ->
+  loadZ ws p b = sumZ (map (fun x => if (nth x p 0%N =? b)%N then nth x ws 0 else 0) (seq 0 (length ws))).
+Proof.
+  induction ws as [|w ws IH]; intros p b Hl; destruct p as [|x p]; try discriminate; [reflexivity|].
+  cbn [loadZ length seq map]. rewrite <- seq_shift, map_map. unfold sumZ at 1. cbn [fold_right nth].
+  fold (sumZ (map (fun i => if (nth (S i) (x :: p) 0%N =? b)%N then nth (S i) (w :: ws) 0 else 0) (seq 0 (length ws)))).
+  cbn [nth]. rewrite (IH p b) by (cbn [length] in Hl; lia). reflexivity.
+Qed.
+
+Lemma nth_seq_all (ws : list Z) : map (fun x => nth x ws 0) (seq 0 (length ws)) = ws.
+Proof.
+  induction ws as [|w ws IH]; [reflexivity|]. cbn [length seq map nth].
+  rewrite <- seq_shift, map_map. cbn [nth]. rewrite IH. reflexivity.
+Qed.
+
+Section Pick.
+  Variable ord : nat -> N.
+  Variable idp : nat -> N.
+  Variable wzf : nat -> Z.
+  Variable b : N.
+  Let g (x : nat) : Z := if (idp x =? b)%N then wzf x else 0.
+
+  (* the elements carrying id b are exactly those of the leaf that drew b *)
+  Lemma sum_pick : forall lvs base j l,
+    nth_error lvs j = Some l ->
+    (forall i l' x, nth_error lvs i = Some l' -> In x l' -> idp x = ord (base + i)) ->
+    (forall i, (i < length lvs)%nat -> i <> j -> ord (base + i) <> b) ->
+    ord (base + j) = b ->
+    sumZ (map g (concat lvs)) = sumZ (map wzf l).
+  Proof.
+    induction lvs as [|l0 t IH]; intros base j l Hn Hid Hne Hj; [destruct j; discriminate|].
+    cbn [concat]. rewrite map_app, sumZ_app. destruct j as [|j]; cbn [nth_error] in Hn.
+    - inversion Hn; subst l0. rewrite Nat.add_0_r in Hj.
+      rewrite (sumZ_map_ext g wzf l).
+      + rewrite (sumZ_map_zero g (concat t)); [lia|]. intros x Hx. apply in_concat in Hx as [l' [Hl' Hx]].
+        apply In_nth_error in Hl' as [i Hi]. unfold g.
+        rewrite (Hid (S i) l' x Hi Hx).
+        destruct (N.eqb_spec (ord (base + S i)) b) as [E|_]; [|reflexivity].
+        exfalso. apply (Hne (S i)); [|discriminate|exact E]. cbn [length]. assert (i < length t)%nat by (apply nth_error_Some; congruence). lia.
+      + intros x Hx. unfold g. rewrite (Hid 0%nat l x eq_refl Hx), Nat.add_0_r, Hj, N.eqb_refl. reflexivity.
+    - rewrite (sumZ_map_zero g l0).
+      + rewrite (IH (S base) j l Hn); [lia| | |].
+        * intros i l' x Hi Hx. rewrite (Hid (S i) l' x Hi Hx). f_equal. lia.
+        * intros i Hi Hij. replace (S base + i)%nat with (base + S i)%nat by lia. apply Hne; [cbn [length]; lia|lia].
+        * replace (S base + j)%nat with (base + S j)%nat by lia. exact Hj.
+      + intros x Hx. unfold g. rewrite (Hid 0%nat l0 x eq_refl Hx).
+        destruct (N.eqb_spec (ord (base + 0)) b) as [E|_]; [|reflexivity].
+        exfalso. apply (Hne 0%nat); [cbn [length]; lia|discriminate|exact E].
+  Qed.
+End Pick.
+
+(* ===================================================== the balance theorem *)
+
+(* every number below L is drawn by exactly one leaf *)
+Definition ord_bij (ord : nat -> N) (L : nat) : Prop :=
+  ord_ok ord L /\ forall b, (b < N.of_nat L)%N -> exists j, (j < L)%nat /\ ord j = b.
+
+Lemma maxZ_ge ws w : In w ws -> w <= maxZ ws.
+Proof.
+  unfold maxZ. induction ws as [|x t IH]; intros H; [destruct H|]. cbn [fold_right].
+  destruct H as [<-|H]; [lia|]. specialize (IH H). lia.
+Qed.
+
+Lemma wsum_inject ws l :
+  (wsum (map inject_Z ws) l == inject_Z (sumZ (map (fun x => nth x ws 0%Z) l)))%Q.
+Proof.
+  unfold wsum, sumZ. induction l as [|x t IH]; cbn [map sumQ fold_right]; [reflexivity|].
+  rewrite IH, inject_Z_plus. unfold wv. change 0%Q with (inject_Z 0). rewrite map_nth. reflexivity.
+Qed.
+
+Theorem mj_balance_exact D npts (ws : list Z) sorter blk cxlt root ord (k : N) (m : nat) p0 p :
+  root_ok root -> sorter_ok sorter cxlt -> ord_bij ord (N.to_nat k) ->
+  (1 <= k)%N -> (k < 2 ^ 60)%N -> (1 <= m)%nat ->
+  Forall (fun w => 0 <= w) ws -> 0 < maxZ ws -> length ws = npts -> length p0 = npts ->
+  multi_jagged QA D npts (map inject_Z ws) sorter blk root ord k m p0 = Ok p ->
+  forall b, (b < k)%N ->
+    Z.abs (Z.of_N k * loadZ ws p b - sumZ ws) <= Z.of_N k * Z.of_nat m * maxZ ws.
+Proof.
+  intros Hr Hs [Ho Hsurj] Hk Hb Hm Hnn Hmax Hlw Hlp H b Hb'.
+  unfold multi_jagged in H.
+  destruct (mj_leaf_count QA root k m Hr Hk Hb Hm) as [sch [E [L W]]]. rewrite E in H. cbn [bind] in H.
+  unfold mj_with_scheme in H. apply bind_ok in H as [lvs [Hrec H]].
+  set (wq := map inject_Z ws) in *. set (M := inject_Z (maxZ ws)).
+  destruct (mj_rec_spec QA D npts wq sorter blk cxlt (fun _ => 0%N) Hs sch k m W 0%nat (seq 0 npts) lvs Hrec)
+    as [Ll [Q _]].
+  rewrite L in Ll.
+  assert (Hnd : NoDup (concat lvs)).
+  { eapply Permutation_NoDup; [apply Permutation_sym; exact Q|apply seq_NoDup]. }
+  apply write_leaves_spec in H as [Lp [Aw Bw]]; [|exact Hnd].
+  assert (HMpos : (0 < M)%Q).
+  { unfold M. change 0%Q with (inject_Z 0). rewrite <- Zlt_Qlt. exact Hmax. }
+  assert (Hw : Forall (fun w => 0 <= w <= M)%Q wq).
+  { unfold wq. rewrite Forall_forall in *. intros q Hq. apply in_map_iff in Hq as [w [<- Hin]].
+    unfold M. change 0%Q with (inject_Z 0). rewrite <- !Zle_Qle. split; [apply Hnn; exact Hin|apply maxZ_ge; exact Hin]. }
+  pose proof (tree_balance D npts wq sorter blk M HMpos Hw (fun a l => proj1 (Hs a l)) sch k m W 0%nat (seq 0 npts) lvs Hrec) as Hbal.
+  destruct (Hsurj b ltac:(lia)) as [j [Hj Ej]].
+  destruct (nth_error lvs j) as [l|] eqn:En; [|apply nth_error_None in En; lia].
+  rewrite Forall_forall in Hbal. destruct (Hbal l (nth_error_In _ _ En)) as [B1 B2].
+  assert (Eload : loadZ ws p b = sumZ (map (fun x => nth x ws 0) l)).
+  { rewrite loadZ_seq by lia. rewrite Hlw.
+    rewrite (sumZ_map_perm _ _ _ (Permutation_sym Q)).
+    apply (sum_pick ord (fun x => nth x p 0%N) (fun x => nth x ws 0) b lvs 0%nat j l En).
+    - intros i l' x Hi Hx. apply nth_opt_nth. rewrite (Aw i l' Hi x Hx). reflexivity.
+    - intros i Hi Hij E'. apply Hij. apply (proj2 Ho); try lia. cbn [Nat.add] in E'. congruence.
+    - exact Ej. }
+  rewrite Eload. set (wl := sumZ (map (fun x => nth x ws 0) l)) in *.
+  assert (Etot : (wsum wq (seq 0 npts) == inject_Z (sumZ ws))%Q).
+  { unfold wq. rewrite wsum_inject, <- Hlw, nth_seq_all. reflexivity. }
+  unfold wq in B1, B2. rewrite wsum_inject in B1, B2. fold wq in B1, B2. fold wl in B1, B2.
+  rewrite Etot in B1, B2. unfold Qd, QN, M in B1, B2.
+  set (K := inject_Z (Z.of_N k)) in *. set (T := inject_Z (sumZ ws)) in *.
+  set (a := inject_Z wl) in *. set (dq := inject_Z (Z.of_nat m)) in *. set (Mq := inject_Z (maxZ ws)) in *.
+  assert (HK : (1 <= K)%Q) by (apply QN_ge1; exact Hk).
+  assert (Hmul : (K * (a - T / K) == K * a - T)%Q) by (field; lra).
+  assert (U : (K * a - T <= K * dq * Mq)%Q) by nra.
+  assert (Lw : (- (K * dq * Mq) <= K * a - T)%Q) by nra.
+  unfold K, T, a, dq, Mq in U, Lw.
+  unfold Qminus in U, Lw.
+  rewrite <- !inject_Z_mult in U, Lw. repeat rewrite <- inject_Z_opp in U. repeat rewrite <- inject_Z_opp in Lw.
+  rewrite <- inject_Z_plus in U. rewrite <- inject_Z_plus in Lw.
+  rewrite <- Zle_Qle in U, Lw.
+  apply Z.abs_le. lia.
+Qed.
+
+(* the property's balance clause (strict, with max_iter + 1) follows *)
+Corollary mj_balance D npts (ws : list Z) sorter blk cxlt root ord (k : N) (m : nat) p0 p :
+  root_ok root -> sorter_ok sorter cxlt -> ord_bij ord (N.to_nat k) ->
+  (1 <= k)%N -> (k < 2 ^ 60)%N -> (1 <= m)%nat ->
+  Forall (fun w => 0 <= w) ws -> 0 < maxZ ws -> length ws = npts -> length p0 = npts ->
+  multi_jagged QA D npts (map inject_Z ws) sorter blk root ord k m p0 = Ok p ->
+  balanced ws p k m.
+Proof.
+  intros Hr Hs Ho Hk Hb Hm Hnn Hmax Hlw Hlp H b Hb'.
+  pose proof (mj_balance_exact D npts ws sorter blk cxlt root ord k m p0 p Hr Hs Ho Hk Hb Hm Hnn Hmax Hlw Hlp H b Hb').
+  nia.
+Qed.
+
+(* ============================ no panic at exact arithmetic (non-negative weights) *)
+
+Lemma is_cut_mono wl t t' p p' : (t <= t')%Q -> is_cut wl t p -> is_cut wl t' p' -> (p <= p')%nat.
+Proof.
+  intros Ht [L1 [A1 B1]] [L2 [A2 B2]]. destruct (Nat.le_gt_cases p p') as [?|Hlt]; [assumption|].
+  specialize (B2 ltac:(lia)). specialize (A1 p' Hlt). lra.
+Qed.
+
+Lemma cuts_sorted wl ths ps :
+  StronglySorted Qle ths -> Forall2 (is_cut wl) ths ps ->
+  StronglySorted le ps /\ Forall (fun p => (p <= length wl)%nat) ps.
+Proof.
+  intros Hs HF. induction HF as [|t p ths ps Hc HF IH]; [split; constructor|].
+  inversion Hs as [|? ? Hs' Hall]; subst. destruct (IH Hs') as [S1 F1].
+  split; constructor; try assumption; [|destruct Hc; assumption].
+  clear - Hc Hall HF. induction HF as [|t' p' ths ps Hc' HF IH]; [constructor|].
+  inversion Hall; subst. constructor; [eapply is_cut_mono; eassumption|apply IH; assumption].
+Qed.
+
+Lemma split_many_total {X} : forall ps (l : list X) d,
+  StronglySorted le ps -> Forall (fun p => (d <= p <= d + length l)%nat) ps ->
+  exists subs, split_many l ps d = Ok subs.
+Proof.
+  induction ps as [|p ps IH]; intros l d Hs Hb; cbn [split_many]; [eauto|].
+  inversion Hs as [|? ? Hs' Hall]; subst. inversion Hb as [|? ? Hp Hb']; subst.
+  destruct (Nat.ltb_spec p d); [lia|]. destruct (Nat.ltb_spec (length l) (p - d)); [lia|].
+  destruct (IH (skipn (p - d) l) (d + (p - d))%nat Hs') as [rest E].
+  - rewrite Forall_forall in *. intros q Hq. specialize (Hall q Hq). specialize (Hb' q Hq).
+    rewrite skipn_length. lia.
+  - rewrite E. cbn [bind]. eauto.
+Qed.
+
+Lemma split_last_none {X} (l : list X) : split_last l = None -> l = [].
+Proof.
+  induction l as [|x t IH]; cbn [split_last]; intros H; [reflexivity|].
+  destruct t as [|y t']; [discriminate|]. destruct (split_last (y :: t')); [discriminate|].
+  specialize (IH eq_refl). discriminate.
+Qed.
+
+Section Total.
+  Variable D npts : nat.
+  Variable wq : list Q.
+  Variable sorter : nat -> list nat -> list nat.
+  Variable blk : list nat -> list nat.
+  Hypothesis HD : (1 <= D)%nat.
+  Hypothesis Hlen : length wq = npts.
+  Hypothesis Hw : Forall (Qle 0) wq.
+  Hypothesis Hperm : forall a l, Permutation (sorter a l) l.
+  Notation mjrec := (mj_rec QA D npts wq sorter blk).
+
+  Lemma gather_total perm : Forall (fun i => (i < npts)%nat) perm -> exists wl, gather QA wq perm = Ok wl.
+  Proof.
+    induction 1 as [|i t Hi Ht [wl IH]]; cbn [gather]; [eauto|].
+    destruct (nth_opt_lt wq i ltac:(lia)) as [w E].
+    match goal with |- exists wl, match ?g with _ => _ end = _ => replace g with (Some w : option Q) end.
+    rewrite IH. cbn [bind]. eauto.
+  Qed.
+
+  Lemma wv_nonneg els : Forall (Qle 0) (map (wv wq) els).
+  Proof.
+    induction els as [|x t IH]; cbn [map]; constructor; [|exact IH]. unfold wv.
+    destruct (Nat.lt_ge_cases x (length wq)) as [Hlt|Hge].
+    - rewrite Forall_forall in Hw. apply Hw. apply nth_In. exact Hlt.
+    - rewrite nth_overflow by exact Hge. lra.
+  Qed.
+
+  Definition total_spec (sch : scheme Q) : Prop :=
+    forall parts d, WfScheme QA sch parts d ->
+    forall a perm, Forall (fun i => (i < npts)%nat) perm -> exists lvs, mjrec sch a perm = Ok lvs.
+
+  Lemma go_ch_total a' : forall (chs : list (scheme Q)) cparts d subs,
+    Forall total_spec chs ->
+    Forall2 (fun c cp => WfScheme QA c cp d /\ (1 <= cp)%N) chs cparts ->
+    Forall (Forall (fun i => (i < npts)%nat)) subs ->
+    exists lvs, go_ch QA D (fun c s => mjrec c a' s) subs chs = Ok lvs.
+  Proof.
+    induction chs as [|c chs IH]; intros cparts d subs HP HW Hs.
+    - destruct subs; cbn [go_ch]; eauto.
+    - destruct subs as [|s subs]; cbn [go_ch]; [eauto|].
+      destruct (Nat.eqb_spec D 0); [lia|].
+      inversion HP as [|? ? Pc Pt]; subst. inversion HW as [|? cp ? cps [Wc _] Wt]; subst.
+      inversion Hs as [|? ? Hs1 Hs2]; subst.
+      destruct (Pc cp d Wc a' s Hs1) as [l1 E1]. rewrite E1. cbn [bind].
+      destruct (IH cps d subs Pt Wt Hs2) as [l2 E2]. rewrite E2. cbn [bind]. eauto.
+  Qed.
+
+  Lemma mj_rec_total : forall sch, total_spec sch.
+  Proof.
+    induction sch as [ns mods next IH] using scheme_ind2. intros parts d W a perm Hin.
+    pose proof (Wf_parts_ge1 _ _ _ W) as Hparts.
+    rewrite mj_rec_eq.
+    inversion W as [mods' next' d'|ns' mods' children parts' d' cparts Hns Hlc HF Hsum Hmods]; subst.
+    - change (0 =? 0)%N with true. cbv iota. eauto.
+    - destruct (N.eqb_spec ns 0) as [?|_]; [contradiction|].
+      assert (Hfb : forallb (fun i => Nat.ltb i npts) perm = true).
+      { apply forallb_forall. rewrite Forall_forall in Hin. intros x Hx. apply Nat.ltb_lt. apply Hin; exact Hx. }
+      rewrite Hfb, andb_false_r. cbv zeta.
+      set (sorted := sorter a perm).
+      assert (Hsin : Forall (fun i => (i < npts)%nat) sorted).
+      { eapply Permutation_Forall; [apply Permutation_sym; apply Hperm|exact Hin]. }
+      set (fm := fun cp => a_div QA (a_ofN QA cp) (a_ofN QA (sumN cparts))).
+      (* compute_split_positions returns sorted cuts within the slab *)
+      assert (Hcsp : exists ps, csp QA wq sorted (map fm cparts) (blk sorted) = Ok ps /\
+                                StronglySorted le ps /\ Forall (fun p => (p <= length sorted)%nat) ps).
+      { unfold csp.
+        destruct (split_last (map fm cparts)) as [init|] eqn:Esl.
+        2:{ exfalso. apply split_last_none in Esl. destruct cparts; [|discriminate].
+            apply Forall2_len in HF. cbn [length] in HF. lia. }
+        destruct (split_last_app _ _ Esl) as [z Emods].
+        destruct (gather_total sorted Hsin) as [wl Eg]. rewrite Eg. cbn [bind].
+        pose proof (gather_map wq sorted wl Eg) as Ewl. subst wl.
+        set (wl := map (wv wq) sorted). set (W0 := sum_list QA wl).
+        assert (Hnn : Forall (Qle 0) wl) by apply wv_nonneg.
+        assert (HW0nn : (0 <= W0)%Q) by (unfold W0; rewrite sum_list_Q; apply sumQ_nonneg; exact Hnn).
+        assert (Hmods_nn : Forall (Qle 0) (map fm cparts)).
+        { rewrite Forall_forall. intros q Hq. apply in_map_iff in Hq as [cp [<- _]]. unfold fm.
+          cbn [a_div a_ofN QA]. fold (QN cp) (QN (sumN cparts)).
+          pose proof (QN_ge1 _ Hparts). apply Qle_shift_div_l; [lra|].
+          unfold QN. change 0%Q with (inject_Z 0). rewrite Qmult_0_l. change 0%Q with (inject_Z 0). rewrite <- Zle_Qle. lia. }
+        rewrite Emods in Hmods_nn. apply Forall_app in Hmods_nn as [Hinit _].
+        destruct (thresholds_sorted W0 HW0nn init 0%Q Hinit) as [Ts Tp].
+        destruct (csp_core_spec wl Hnn (thresholds QA W0 0%Q init) (blk sorted) Ts Tp) as [ps [Eps Fcut]].
+        exists ps. split; [exact Eps|].
+        destruct (cuts_sorted wl _ ps Ts Fcut) as [S1 F1]. split; [exact S1|].
+        unfold wl in F1. rewrite map_length in F1. exact F1. }
+      destruct Hcsp as [ps [Ecsp [Sps Fps]]]. rewrite Ecsp. cbn [bind].
+      destruct (split_many_total ps sorted 0%nat Sps) as [subs Esubs].
+      { rewrite Forall_forall in *. intros p Hp. specialize (Fps p Hp). lia. }
+      rewrite Esubs. cbn [bind].
+      apply split_many_ok in Esubs as [Hcat _].
+      eapply (go_ch_total _ children cparts d' subs (IH children eq_refl) HF).
+      rewrite Forall_forall. intros s Hs. rewrite Forall_forall in *. intros x Hx.
+      apply Hsin. rewrite <- Hcat. eapply in_concat_of; eassumption.
+  Qed.
+End Total.
+
+(* at exact arithmetic MultiJagged returns for every input of the contract *)
+Theorem mj_exact_total D npts (wq : list Q) sorter blk cxlt root ord (k : N) (m : nat) p0 :
+  root_ok root -> sorter_ok sorter cxlt ->
+  (1 <= k)%N -> (k < 2 ^ 60)%N -> (1 <= m)%nat -> (1 <= D)%nat ->
+  Forall (Qle 0) wq -> length wq = npts -> length p0 = npts ->
+  exists p, multi_jagged QA D npts wq sorter blk root ord k m p0 = Ok p.
+Proof.
+  intros Hr Hs Hk Hb Hm HD Hw Hlw Hlp. unfold multi_jagged.
+  destruct (mj_leaf_count QA root k m Hr Hk Hb Hm) as [sch [E [L W]]]. rewrite E. cbn [bind].
+  unfold mj_with_scheme.
+  destruct (mj_rec_total D npts wq sorter blk HD Hlw Hw (fun a l => proj1 (Hs a l)) sch k m W 0%nat (seq 0 npts)) as [lvs El].
+  { rewrite Forall_forall. intros x Hx. apply in_seq in Hx. lia. }
+  rewrite El. cbn [bind].
+  destruct (mj_rec_spec QA D npts wq sorter blk cxlt (fun _ => 0%N) Hs sch k m W 0%nat (seq 0 npts) lvs El) as [_ [Q _]].
+  apply write_leaves_ok. rewrite Forall_forall. intros x Hx.
+  eapply Permutation_in in Hx; [|exact Q]. apply in_seq in Hx. lia.
+Qed.
